@@ -57,7 +57,7 @@ def main():
     meta['existing_suite_passes_with_change'] = 'FAILED' not in t.stdout and 'error' not in t.stdout and t.stdout.count('test result: ok') >= 3
     shutil.copy(demo, repo + '/tests/' + os.path.basename(demo))
     c2 = sh('cd %s && CARGO_NET_OFFLINE=true cargo %stest --offline --test %s %s 2>&1 | tail -15' % (repo, toolchain, tname, demo_args))
-    meta['demo_fails_with_change'] = 'FAILED' in c2.stdout or 'test result: FAILED' in c2.stdout or 'panicked' in c2.stdout
+    meta['demo_fails_with_change'] = any(t in c2.stdout for t in ('FAILED', 'panicked', 'error: test failed', 'SIGABRT', 'SIGSEGV', 'signal:'))
     os.remove(repo + '/tests/' + os.path.basename(demo))
     meta['commands'] = ['cargo %stest --offline --test %s %s   (clean tree: passes; with patch: fails)' % (toolchain, tname, demo_args),
                         'cargo test --offline   (with patch: whole existing suite passes)',
